@@ -359,6 +359,23 @@ def rule_T8(ctx: Ctx) -> None:
     lc = [n for n in ast.walk(sst.node) if isinstance(n, ast.ListComp)]
     ok = len(lc) >= 1 and X.same_expr(lc[0], "[step_tokenizer.to_tokens(maze, i, j, coord_tokenizer=coord_tokenizer) for step_tokenizer in self.step_tokenizers]")
     ctx.judge(sst, ok, {"per_step": X.U(lc[0])[:120] if lc else None}, "each step is rendered by every configured step tokenizer, in the configured order, for the same (i, j)")
+    # delimiters of a step: intra after every step-tokenizer output (interleaved), pre before, post after
+    body_txt = X.U(sst.node)
+    il = [n for n in ast.walk(sst.node) if isinstance(n, ast.Assign) and isinstance(n.targets[0], ast.Subscript) and "step_rep_tokens_and_intra" in X.U(n.targets[0])]
+    forms = {}
+    for a_ in il:
+        sl = a_.targets[0].slice
+        if isinstance(sl, ast.Slice):
+            forms[(N.const_int(sl.lower) or 0, N.const_int(sl.step))] = X.U(a_.value)
+    ok_il = forms.get((0, 2)) == "step_rep_tokens" and forms.get((1, 2), "").replace(" ", "") == "[VOCAB.PATH_INTRA]*len(step_rep_tokens)"
+    alloc = [n for n in ast.walk(sst.node) if isinstance(n, (ast.Assign, ast.AnnAssign)) and X.U(n.targets[0] if isinstance(n, ast.Assign) else n.target) == "step_rep_tokens_and_intra"]
+    ok_al = len(alloc) == 1 and X.same_expr(alloc[0].value, "[None] * (len(step_rep_tokens) * 2)")
+    at = [n for n in ast.walk(sst.node) if isinstance(n, (ast.Assign, ast.AnnAssign)) and X.U(n.targets[0] if isinstance(n, ast.Assign) else n.target) == "all_tokens"]
+    ok_pp = len(at) == 1 and X.same_expr(at[0].value, "[*empty_sequence_if_attr_false((VOCAB.PATH_PRE,), self, 'pre'), *flatten(step_rep_tokens), *empty_sequence_if_attr_false((VOCAB.PATH_POST,), self, 'post')]")
+    guard = [n for n in sst.node.body if isinstance(n, ast.If) and X.U(n.test) == "self.intra"]
+    ctx.judge(sst, ok_il and ok_al and ok_pp and len(guard) == 1, {"interleave": {str(k): v for k, v in forms.items()}, "pre_post": X.U(at[0].value)[:120] if at else None},
+              "a step group is [PATH_PRE?] t1 [INTRA] t2 [INTRA] ... [PATH_POST?]: under intra every step-tokenizer output is followed by one PATH_INTRA (even slots outputs, odd slots delimiters)",
+              "delimiters are misplaced/miscounted inside a step: the path region cannot be segmented back into steps")
     ld = ss.methods["_leading_tokens"]
     ok = "StepTokenizers.Coord() in self.step_tokenizers" in X.U(ld.node) and "coord_tokenizer.to_tokens(maze.solution[0, ...])" in X.U(ld.node)
     ctx.judge(ld, ok, {}, "when steps are given by coordinates, the first solution cell is emitted once before the steps (fence-post)")
@@ -491,7 +508,7 @@ RULES = [
     Rule("C06.T5", rule_T5, floor=1, doc="wall subset inside the grid, no aliasing"),
     Rule("C06.T6", rule_T6, floor=3, doc="connector position"),
     Rule("C06.T7", rule_T7, floor=4, doc="permitted nondeterminism only"),
-    Rule("C06.T8", rule_T8, floor=10, doc="path tokenization structure"),
+    Rule("C06.T8", rule_T8, floor=11, doc="path tokenization structure and step delimiters"),
     Rule("C06.T9", rule_T9, floor=3, doc="direction tables"),
     Rule("C06.T10", rule_T10, floor=5, doc="coordinate / target tokenizers"),
     Rule("C06.T11", rule_T11, floor=7, doc="adjacency pipeline and permuters"),
